@@ -424,6 +424,35 @@ def surface_full(rng, num, equil, model=None):
     return "\n".join(lines) + "\n"
 
 
+# a CD-MUSIC surface whose species distribute their charge over the 0-, 1- and 2-plane (phreeqc.dat's Hfo species carry no charge-distribution parameters,
+# so the outer capacitance and the plane charges have no effect with them)
+GOE_DEFS = """SURFACE_MASTER_SPECIES
+ Goe_uni Goe_uniOH-0.5
+SURFACE_SPECIES
+ Goe_uniOH-0.5 = Goe_uniOH-0.5
+  log_k 0
+  -cd_music 0 0 0 0 0
+ Goe_uniOH-0.5 + H+ = Goe_uniOH2+0.5
+  log_k 9.2
+  -cd_music 1 0 0 0 0
+ Goe_uniOH-0.5 + Na+ = Goe_uniOHNa+0.5
+  log_k -1
+  -cd_music 0 1 0 0 0
+ Goe_uniOH-0.5 + H+ + Cl- = Goe_uniOH2Cl-0.5
+  log_k 8.75
+  -cd_music 1 -1 0 0 0
+ Goe_uniOH-0.5 + Ca+2 = Goe_uniOHCa+1.5
+  log_k 2.85
+  -cd_music 0.32 1.68 0 0 0
+"""
+
+
+def surface_cdmusic_goe(rng, num, equil):
+    c1, c2 = rng.choice([(0.98, 0.73), (1.0, 5.0), (1.1, 0.2), (0.85, 0.75), (2.0, 0.9)])
+    return "SURFACE %s\n -equilibrate %s\n Goe_uniOH-0.5 %s %s %s\n -capacitances %s %s\n -cd_music\n" % (
+        num, equil, fmt(loguni(rng, 2e-4, 3e-3)), fmt(rng.choice([96, 45])), fmt(loguni(rng, 0.5, 5)), fmt(c1), fmt(c2))
+
+
 def rich_state(rng, ncells=None, allow=None):
     """returns (prelude, input, cells, kinds) : a multi-simulation input that leaves numbered entities of many kinds in cells 1..n"""
     n = ncells or rng.randint(1, 3)
@@ -449,7 +478,11 @@ def rich_state(rng, ncells=None, allow=None):
             elif k == "exch":
                 t += exchange(rng, c, equil=c if rng.random() < 0.7 else None)
             elif k == "surf":
-                t += surface_full(rng, c, c)
+                if rng.random() < 0.2:
+                    t += surface_cdmusic_goe(rng, c, c)
+                    kinds.add("cd_music_goe")
+                else:
+                    t += surface_full(rng, c, c)
             elif k == "gas":
                 t += gas_phase(rng, c)
             elif k == "ss":
@@ -469,7 +502,7 @@ def rich_state(rng, ncells=None, allow=None):
     if rng.random() < 0.7:
         t += "RUN_CELLS\n -cells 1-%d\n -time_step %s\nEND\n" % (n, fmt(loguni(rng, 10, 1e4)))
         kinds.add("run_cells")
-    return PRELUDE, t, list(range(1, n + 1)), sorted(kinds)
+    return PRELUDE + (GOE_DEFS if "cd_music_goe" in kinds else ""), t, list(range(1, n + 1)), sorted(kinds)
 
 
 FOLLOW_SELOUT = """SELECTED_OUTPUT 1
@@ -485,5 +518,5 @@ FOLLOW_SELOUT = """SELECTED_OUTPUT 1
  -gases CO2(g) N2(g) O2(g) CH4(g)
  -kinetic_reactants zero_rate first_rate
  -solid_solutions Calcite Strontianite
- -molalities NaX KX CaX2 MgX2 Hfo_wOH Hfo_wOH2+ Hfo_wO- Hfo_sOH Hfo_wOCa+
+ -molalities NaX KX CaX2 MgX2 Hfo_wOH Hfo_wOH2+ Hfo_wO- Hfo_sOH Hfo_wOCa+ Goe_uniOH2+0.5 Goe_uniOHNa+0.5 Goe_uniOH2Cl-0.5
 """
